@@ -847,7 +847,8 @@ def gen_bigraph_cases(ctx):
         dtype = rng.choice(['float', 'float', 'int', 'bool'])
         if dtype != 'float':
             wts = [max(1, int(x)) for x in wts]
-        indptr, indices, data = csr_parts(rng, nr, nc, es, wts, shuffle=rng.random() < 0.3)
+        indptr, indices, data = csr_parts(rng, nr, nc, es, wts, zeros=rng.choice([0, 0, 0.2]),
+                                          shuffle=rng.random() < 0.3)
         o = bigraph_options(rng, nr, nc, es)
         if not es:
             o['reorder'] = False
